@@ -96,6 +96,9 @@ func (ex *Exec) unwind(st *State) bool {
 			ex.unsupported(st, "recover without recover block")
 		}
 		if len(st.frames) == 1 {
+			if fr.contract != nil && fr.contract.NoPanic && st.escapeSite != nil {
+				ex.fc.emit(st, "panic", ex.fc.siteFor(st.escapeSite, "escape"), "a panic raised here is not recovered by the deferred functions", fr.contract.PanicTags, TFalse)
+			}
 			return true
 		}
 		st.frames = st.frames[:len(st.frames)-1]
@@ -144,6 +147,17 @@ func (ex *Exec) doReturn(st *State, fr *Frame, in *ssa.Return) bool {
 			if n := sig.Results().At(i).Name(); n != "" && n != "_" {
 				extra[n] = r.Val
 			}
+		}
+		seenT := map[string]bool{}
+		for _, tc := range st.touched {
+			if seenT[tc.typ+tc.ref.S] {
+				continue
+			}
+			seenT[tc.typ+tc.ref.S] = true
+			oi := ex.u.objinvs[tc.typ]
+			t, _ := ex.u.parseType("*" + tc.typ)
+			ienv := &Env{fc: fc, heap: st.heap, oldHeap: st.heap, alloc: st.alloc(), oldAlloc: st.alloc(), vars: map[string]Val{oi.Param: {T: tc.ref, Typ: t}}, side: &st.pc}
+			fc.emit(st, "objinv."+tc.typ, "", "object invariant of "+tc.typ+": "+oi.Text, oi.Tags, ienv.evalBool(oi.E))
 		}
 		env := ex.envFor(st, extra)
 		for i, e := range fr.contract.Ensures {
@@ -491,6 +505,7 @@ func (ex *Exec) load(st *State, in ssa.Instruction, a SVal) SVal {
 		v := st.heap.read(fc.d, a.HAddr.key, a.HAddr.sort, a.HAddr.ref)
 		st.assume(fc.wellFormed(v, a.HAddr.typ, st.alloc()))
 		st.assume(fc.typeInvariant(v, a.HAddr.typ))
+		st.assume(fc.objInvFact(st.heap, st.alloc(), v, a.HAddr.typ))
 		if strings.HasPrefix(a.HAddr.key, "global:") && !strings.Contains(a.HAddr.key[7:], ".") {
 			for _, f := range fc.globalAssumptions(st.heap, a.HAddr.key[7:], v) {
 				st.assume(f)
@@ -517,6 +532,7 @@ func (ex *Exec) load(st *State, in ssa.Instruction, a SVal) SVal {
 		v := SeqNth(a.IAddr.seq.T, a.IAddr.idx)
 		st.assume(fc.wellFormed(v, et, st.alloc()))
 		st.assume(fc.typeInvariant(v, et))
+		st.assume(fc.objInvFact(st.heap, st.alloc(), v, et))
 		return SVal{Val: Val{T: v, Typ: et}}
 	case a.T != nil:
 		// pointer to a heap cell or struct object
@@ -576,10 +592,16 @@ func (ex *Exec) store(st *State, in ssa.Instruction, a SVal, v SVal) {
 			ex.unsupported(st, "store of address value into heap")
 		}
 		ex.frameCheck(st, in, a.HAddr.key, a.HAddr.ref)
+		if tn, ok := u.objinvFields[a.HAddr.key]; ok {
+			st.touched = append(st.touched, touched{tn, a.HAddr.ref})
+		}
 		val := v.T
 		if len(val.S) > 300 {
 			n := fc.d.Fresh("sv", val.Sort)
 			st.assume(Eq(n, val))
+			if val.Sort.IsSeq() {
+				termDefs[n.S] = val
+			}
 			val = n
 		}
 		st.heap = st.heap.store(a.HAddr.key, a.HAddr.ref, val)
